@@ -244,6 +244,10 @@ PROPS_EXTRA = {
             "index_mismatch_api": "C16",
         },
     },
+    # FBATCH = the whole of batchExecute: listed transactions + the robot's four lists behind their switches
+    # (Model/FullBatch.lean, Proofs/FullBatch.lean, Driver/FBatch.lean, harness/drive/fbatch.go). Its judge clauses
+    # (whole_batch_refines_serial, reply_matches_ledger) belong to every property it is attached to.
+    "FBATCH": {"clauses": {}},
 }
 
 _SYS_TEXT = " End to end (Proofs/System.lean): over every history of submissions, batches and task lists of the composed pipeline model (authentication + pending records + nonce windows + token bodies) "
@@ -264,3 +268,13 @@ for _p, _t in (("C06", "no call makes a balance negative, a successful single-as
     PROPS[_p]["also"] = PROPS[_p].get("also", []) + ["LAPI"]
     PROPS[_p]["level_text"] += _LAPI_TEXT + _t + " The table is tied to the code by histories calling every function on the real chaincode with all balances and index entries read back from the ledger's composite keys after every call."
     PROPS[_p]["trusted_base"] = PROPS[_p]["trusted_base"] + ["core/ledger/balances.go + core/bc_balances.go modelled by the table LedgerApi.shape (27 functions)"]
+
+_FB_TEXT = " Whole batches (Proofs/FullBatch.lean; batchExecute with the listed transactions and the robot's swap / multi-swap answer and key lists as programs over the two cache layers): "
+for _p, _t in (("C04", "the whole batch on the layered cache yields the replies and the committed ledger of its serial reading on a plain map (full_batch_refines_serial); every robot item is all-or-nothing (item_all_or_nothing, answer_txOnly, robotDone_txOnly)."),
+               ("C08", "a refused answer or key leaves the committed map untouched; an accepted one commits exactly what its transaction layer saw and reports exactly its writes (refused_answer_invisible, refused_key_invisible, item_all_or_nothing)."),
+               ("C09", "a multi-swap answer whose home-coming asset list the given-out counter does not cover in full is refused with no partial debit left (refused_answer_invisible with subAll), keys likewise."),
+               ("C11", "with a swap switch off the batch is the same program as the batch without the lists of that kind (switched_off_lists_ignored).")):
+    PROPS[_p]["modules"] = PROPS[_p]["modules"] + ["Foundation.Proofs.FullBatch"]
+    PROPS[_p]["also"] = PROPS[_p].get("also", []) + ["FBATCH"]
+    PROPS[_p]["level_text"] += _FB_TEXT + _t + " Tied to the code by random whole batches on the real chaincode (transactions, answers, keys, switches changed by re-initialisation), every reply entry and the whole ledger - balances, counters, pending ids, decoded swap records - compared after every batch."
+    PROPS[_p]["trusted_base"] = PROPS[_p]["trusted_base"] + ["core/cc_batch.go batchExecute sections, swap.Answer/RobotDone, multiswap.Answer/RobotDone modelled by FullBatch.fullBatchProg (records as text, hashes symbolic)"]
